@@ -213,7 +213,18 @@ class Result(object):
         self.functions = []
 
 
-def explore(ctx, suf, entry, setup, monitor, base_class_of, nul=False, max_states=3000000, extra_sets=(), log=None, workers=1):
+class _PreStub(object):
+    def __init__(self, needs):
+        self.states = getattr(needs, 'pre_states', 0)
+        self.edges = []
+
+
+def al_key(al):
+    return tuple(sorted(tuple(sorted(s)) for s in al.sets))
+
+
+def explore(ctx, suf, entry, setup, monitor, base_class_of, nul=False, max_states=3000000, extra_sets=(), log=None, workers=1,
+            needs_cache=None):
     """monitor: object with init(), on_symbol(m, cls, alphabet), on_eof(m), final(m, st, value, machine, result, node)"""
     irp = ctx.irp
     summaries = make_summaries(suf)
@@ -227,14 +238,21 @@ def explore(ctx, suf, entry, setup, monitor, base_class_of, nul=False, max_state
         try:
             pre = None
             if mach.cellwatch:
-                mach.optimistic = True
-                pre = (_explore_sharded(mach, entry, setup, NullMonitor(), max_states, workers) if workers > 1
-                       else _explore_once(mach, entry, setup, NullMonitor(), max_states))
-                mach.optimistic = False
-                mach.cellneeds = cell_needs(pre)
-                if log:
-                    log('pre-analysis: %d states, %d edges, %d states need cells' % (
-                        pre.states, len(pre.edges), sum(1 for v in mach.cellneeds.values() if v)))
+                cached = needs_cache.get(al_key(al)) if needs_cache is not None else None
+                if cached is not None:
+                    mach.cellneeds = cached
+                    pre = _PreStub(cached)
+                else:
+                    mach.optimistic = True
+                    pre = (_explore_sharded(mach, entry, setup, NullMonitor(), max_states, workers) if workers > 1
+                           else _explore_once(mach, entry, setup, NullMonitor(), max_states))
+                    mach.optimistic = False
+                    mach.cellneeds = cell_needs(pre)
+                    if needs_cache is not None:
+                        needs_cache.put(al_key(al), mach.cellneeds, pre.states)
+                if log and pre.edges:
+                    log('pre-analysis: %d states, %d edges, %d states need cells (%.0fs)' % (
+                        pre.states, len(pre.edges), sum(1 for v in mach.cellneeds.values() if v), time.time() - t0))
             res = (_explore_sharded(mach, entry, setup, monitor, max_states, workers) if workers > 1
                    else _explore_once(mach, entry, setup, monitor, max_states))
             res.pre_states = pre.states if pre else 0
@@ -317,14 +335,16 @@ def witness(res, node, al):
     for lab in labels:
         if lab[0] == 'sym':
             syms.append(al.sample(lab[1]))
+            if len(lab) > 2 and lab[2]:
+                notes.append('pebble on character %d' % (len(syms) - 1))
         elif lab[0] == 'eof':
-            notes.append('end of input')
+            notes.append('pebble at end of input' if (len(lab) > 1 and lab[1]) else 'end of input')
         elif lab[0] == 'alloc':
             notes.append('allocation %s %s' % (lab[1], 'succeeds' if lab[2] else 'FAILS'))
         elif lab[0] == 'choice':
             notes.append('call returns %r' % (lab[1],))
     text = ''.join(chr(s) if 32 <= s < 127 else ('\\x%02x' % s if s < 256 else '\\u{%x}' % (WIDE_REPS[s - 256] & 0xffffffff)) for s in syms)
-    return text, [n for n in notes if 'FAILS' in n or 'returns' in n]
+    return text, [n for n in notes if 'FAILS' in n or 'returns' in n or 'pebble' in n]
 
 
 def _explore_once(mach, entry, setup, monitor, max_states):
@@ -400,85 +420,18 @@ def _explore_once(mach, entry, setup, monitor, max_states):
     setup(mach, st0)
     m0 = monitor.init(mach.al)
     mach.fresh, mach.trace = False, None
+    mach.pa = None
     ev0, obs0 = advance(st0)
     add(st0, m0, ev0, obs0, None, None)
-    ncls = len(mach.al.sets)
     global DEBUG_SEEN
     DEBUG_SEEN = seen
+    stats = {'runs': 0, 'shared': 0}
     while queue:
         st, m, nid, ev = queue.popleft()
-        if ev[0] == 'sym':
-            reps = []     # (trace, state after run, event, obs, depends on class in window)
-            for c in range(ncls):
-                m2 = monitor.on_symbol(m, c, mach.al)
-                hit = None
-                for rep in reps:
-                    tr = rep[0]
-                    if tr is None:
-                        continue
-                    try:
-                        if all(mach.qeval(c, q) == o for q, o in tr):
-                            hit = rep
-                            break
-                    except (NeedSplit, Imprecise):
-                        continue
-                if hit is not None:
-                    res.shared += 1
-                    hst, hkey = hit[1], hit[5]
-                    if hkey is None:
-                        add(None, m2, hit[2], hit[3], nid, ('sym', c))
-                        continue
-                    if hst.win:
-                        nw = (c,) + hst.win[1:]
-                        hkey = hkey[:2] + (nw,) + hkey[3:]
-
-                        def mk(hst=hst, nw=nw):
-                            x = hst.copy()
-                            x.win = nw
-                            return x
-                    else:
-                        def mk(hst=hst):
-                            return hst.copy()
-                    add(mk, m2, hit[2], hit[3], nid, ('sym', c), ckey=hkey)
-                    continue
-                s2 = st.copy()
-                mach.apply_symbol(s2, c)
-                mach.fresh, mach.trace = True, []
-                ev2, obs2 = advance(s2)
-                tr = mach.trace
-                mach.fresh, mach.trace = False, None
-                if any(x is None for x in tr):
-                    tr = None
-                ck = None
-                if not isinstance(ev2, Finding):
-                    ck = mach.canon(s2)
-                # the new symbol is still in the window iff the window is non-empty (no further symbol was read)
-                reps.append((tr, s2.copy() if ck is not None else None, ev2, obs2, True, ck))
-                add(s2, m2, ev2, obs2, nid, ('sym', c), ckey=ck)
-            s2 = st.copy()
-            mach.apply_eof(s2)
-            ev2, obs2 = advance(s2)
-            add(s2, monitor.on_eof(m), ev2, obs2, nid, ('eof',))
-        elif ev[0] == 'alloc':
-            for ok in (True, False):
-                s2 = st.copy()
-                mach.apply_alloc(s2, ev[1], ok)
-                ev2, obs2 = advance(s2)
-                add(s2, m, ev2, obs2, nid, ('alloc', ev[1], ok))
-        elif ev[0] == 'choice':
-            for v in ev[1]:
-                s2 = st.copy()
-                mach.apply_choice(s2, v)
-                ev2, obs2 = advance(s2)
-                add(s2, m, ev2, obs2, nid, ('choice', v))
-        elif ev[0] == 'choice-br':
-            for v in ev[1]:
-                s2 = st.copy()
-                mach.apply_branch(s2, v)
-                ev2, obs2 = advance(s2)
-                add(s2, m, ev2, obs2, nid, ('branch', v))
-        else:
-            raise AnalysisBroken('E1: unknown event %r' % (ev,))
+        for (s2, m2, ev2, obs2, label, ck) in _successors(mach, monitor, st, m, ev, stats):
+            add(s2, m2, ev2, obs2, nid, label, ckey=ck)
+    res.runs += stats['runs']
+    res.shared += stats['shared']
     res.states = len(seen)
     res.seen = seen if mach.optimistic else None
     return res
@@ -497,75 +450,90 @@ def _successors(mach, monitor, st, m, ev, stats):
             e2 = f
         return e2, mach.obs
     ncls = len(mach.al.sets)
+    peb = getattr(monitor, 'pebbles', False)
     if ev[0] == 'sym':
-        reps = []
-        for c in range(ncls):
-            m2 = monitor.on_symbol(m, c, mach.al)
-            hit = None
-            for rep in reps:
-                tr = rep[0]
-                if tr is None:
-                    continue
-                try:
-                    if all(mach.qeval(c, q) == o for q, o in tr):
-                        hit = rep
-                        break
-                except (NeedSplit, Imprecise):
-                    continue
-            if hit is not None:
-                stats['shared'] += 1
-                hst, hkey = hit[1], hit[5]
-                if hkey is None:
-                    yield (None, m2, hit[2], hit[3], ('sym', c), None)
-                    continue
-                if hst.win:
-                    nw = (c,) + hst.win[1:]
-                    hkey = hkey[:2] + (nw,) + hkey[3:]
+        bits = (0, 1) if (peb and monitor.pebble_free(m)) else (0,)
+        for bit in bits:
+            reps = []
+            for c in range(ncls):
+                m2 = monitor.on_symbol(m, c, mach.al, bit) if peb else monitor.on_symbol(m, c, mach.al)
+                if m2 is None:
+                    continue        # pruned by the monitor
+                pa2 = monitor.pa_of(m2) if peb else None
+                hit = None
+                for rep in reps:
+                    tr = rep[0]
+                    if tr is None or rep[6] != pa2:
+                        continue
+                    try:
+                        if all(mach.qeval(c, q) == o for q, o in tr):
+                            hit = rep
+                            break
+                    except (NeedSplit, Imprecise):
+                        continue
+                if hit is not None:
+                    stats['shared'] += 1
+                    hst, hkey = hit[1], hit[5]
+                    m3 = monitor.after_step(m2, hit[3]) if peb else m2
+                    if hkey is None:
+                        yield (None, m3, hit[2], hit[3], ('sym', c, bit), None)
+                        continue
+                    if hst.win:
+                        nw = (c,) + hst.win[1:]
+                        hkey = hkey[:2] + (nw,) + hkey[3:]
 
-                    def mk(hst=hst, nw=nw):
-                        x = hst.copy()
-                        x.win = nw
-                        return x
-                else:
-                    def mk(hst=hst):
-                        return hst.copy()
-                yield (mk, m2, hit[2], hit[3], ('sym', c), hkey)
-                continue
+                        def mk(hst=hst, nw=nw):
+                            x = hst.copy()
+                            x.win = nw
+                            return x
+                    else:
+                        def mk(hst=hst):
+                            return hst.copy()
+                    yield (mk, m3, hit[2], hit[3], ('sym', c, bit), hkey)
+                    continue
+                s2 = st.copy()
+                mach.pa = pa2
+                mach.apply_symbol(s2, c, bit)
+                mach.fresh, mach.trace = True, []
+                ev2, obs2 = advance(s2)
+                tr = mach.trace
+                mach.fresh, mach.trace = False, None
+                if any(x is None for x in tr):
+                    tr = None
+                ck = None
+                if not isinstance(ev2, Finding):
+                    ck = mach.canon(s2)
+                reps.append((tr, s2.copy() if ck is not None else None, ev2, obs2, True, ck, pa2))
+                m3 = monitor.after_step(m2, obs2) if peb else m2
+                yield (s2, m3, ev2, obs2, ('sym', c, bit), ck)
+        opts = monitor.eof_options(m) if peb else [(monitor.on_eof(m), False)]
+        for m2, at_end in opts:
             s2 = st.copy()
-            mach.apply_symbol(s2, c)
-            mach.fresh, mach.trace = True, []
+            mach.pa = monitor.pa_of(m2) if peb else None
+            mach.apply_eof(s2, at_end)
             ev2, obs2 = advance(s2)
-            tr = mach.trace
-            mach.fresh, mach.trace = False, None
-            if any(x is None for x in tr):
-                tr = None
-            ck = None
-            if not isinstance(ev2, Finding):
-                ck = mach.canon(s2)
-            reps.append((tr, s2.copy() if ck is not None else None, ev2, obs2, True, ck))
-            yield (s2, m2, ev2, obs2, ('sym', c), ck)
-        s2 = st.copy()
-        mach.apply_eof(s2)
-        ev2, obs2 = advance(s2)
-        yield (s2, monitor.on_eof(m), ev2, obs2, ('eof',), None)
-    elif ev[0] == 'alloc':
-        for ok in (True, False):
+            m3 = monitor.after_step(m2, obs2) if peb else m2
+            yield (s2, m3, ev2, obs2, ('eof', at_end), None)
+        return
+    mach.pa = monitor.pa_of(m) if peb else None
+    if ev[0] == 'alloc':
+        for ok in ((True,) if getattr(monitor, 'success_only', False) else (True, False)):
             s2 = st.copy()
             mach.apply_alloc(s2, ev[1], ok)
             ev2, obs2 = advance(s2)
-            yield (s2, m, ev2, obs2, ('alloc', ev[1], ok), None)
+            yield (s2, monitor.after_step(m, obs2) if peb else m, ev2, obs2, ('alloc', ev[1], ok), None)
     elif ev[0] == 'choice':
         for v in ev[1]:
             s2 = st.copy()
             mach.apply_choice(s2, v)
             ev2, obs2 = advance(s2)
-            yield (s2, m, ev2, obs2, ('choice', v), None)
+            yield (s2, monitor.after_step(m, obs2) if peb else m, ev2, obs2, ('choice', v), None)
     elif ev[0] == 'choice-br':
         for v in ev[1]:
             s2 = st.copy()
             mach.apply_branch(s2, v)
             ev2, obs2 = advance(s2)
-            yield (s2, m, ev2, obs2, ('branch', v), None)
+            yield (s2, monitor.after_step(m, obs2) if peb else m, ev2, obs2, ('branch', v), None)
     else:
         raise AnalysisBroken('E1: unknown event %r' % (ev,))
 
@@ -710,6 +678,7 @@ def _explore_sharded(mach, entry, setup, monitor, max_states, nworkers):
     setup(mach, st0)
     m0 = monitor.init(mach.al)
     mach.fresh, mach.trace = False, None
+    mach.pa = None
     mach.obs = []
     ev0 = mach.run(st0)
     obs0 = mach.obs
@@ -751,7 +720,7 @@ def _explore_sharded(mach, entry, setup, monitor, max_states, nworkers):
         if any(not p.is_alive() for p in procs) and not stop.is_set() and resultq.empty():
             dead = [i for i, p in enumerate(procs) if not p.is_alive() and i not in pieces]
             if dead:
-                err = ('error', ('internal', 'worker %s died' % dead))
+                err = ('error', ('internal', 'worker %s died, exit codes %s' % (dead, [procs[i].exitcode for i in dead])))
                 stop.set()
     for p in procs:
         p.join(timeout=5)
